@@ -65,7 +65,7 @@ PROPS = {
             "rule": "C06 plan: frames of 0..40 rows, 1-3 sort columns each of one kind plus nils and heavy duplicates, both directions; compared through the ordered-permutation specification and on the sort columns."},
     "C07": {"focus": ["dedup", "dedupinplace"], "plans": ["C07"], "codes": [1, 2, 45],
             "rule": "C07 plan: frames over {nil,'nil','','|',':','a|b:c',1,'1',...}, every Keep value (valid or not), subsets, with and without Inplace."},
-    "C08": {"focus": ["row", "head", "tail", "rowslice", "iloc", "loc", "filter", "multiselect", "droprow", "dropcolumn", "columnnames", "nrows", "ncols"], "plans": ["C08"], "codes": [1, 2, 47],
+    "C08": {"focus": ["row", "head", "tail", "rowslice", "iloc", "loc", "filter", "multiselect", "droprow", "dropcolumn", "columnnames", "nrows", "ncols", "select", "colat", "series", "string"], "plans": ["C08"], "codes": [1, 2, 47],
             "rule": "C08 plan: every count, every (start,end) pair and every predicate row set on frames of 0..R rows (exhaustive stream), then random selection calls incl. Loc/Iloc with repeats."},
     "C09": {"focus": ["tocsv", "csvroundtrip"], "plans": ["C09"], "codes": [1, 2, 46],
             "rule": "C09 plan: frames with 1-4 columns whose names and text cells contain commas, quotes, LF, CR, tabs, non-ASCII and empty strings; ints up to 2^53, any float64; the bytes written are compared with the model writer byte for byte and the re-imported frame with the model reader."},
